@@ -87,4 +87,12 @@ theorem goroutines_known : goroutineEntries =
 /-- the map the property names is guarded for real: it has accesses, reads and writes, from two different goroutines -/
 example : nodeStreamRequest_lastRequests.accs.length = 4 ∧ (nodeStreamRequest_lastRequests.accs.any (·.write)) = true := by decide
 
+/-! ### Part 2b: values handed to the application -/
+
+/-- **C15 (an event belongs to the application once it has been pushed).** In no function of the root package is an event value —
+    or the frame it was built from — mentioned again in the statements that follow its `pushEvent`: after the hand-over on the
+    unbuffered event channel the application may read and modify it (forwarding a received frame rewrites its message) while the
+    sender never touches it again. Regenerated from the source on every run (`usesAfterHandoff`, tools/extract/access.go). -/
+theorem event_not_used_after_handoff : usesAfterHandoff = [] := by decide
+
 end Mav.C15
